@@ -22,10 +22,18 @@ def main():
         print('footprint generation skipped:', e)
     import re
     exes = re.findall(r'\[\[lean_exe\]\]\s*name\s*=\s*"([^"]+)"', open(os.path.join(vcommon.LEAN, "lakefile.toml")).read())
-    ok, out = vcommon.lake_build(["OvniModel"] + exes)
-    print(out[-3000:])
+    # the drivers (model + line protocol) must build: without them nothing can be checked
+    ok, out = vcommon.lake_build(exes)
+    print(out[-2000:])
     if not ok:
         sys.exit(1)
+    # the theorems are built here only to warm the cache: when /repo has been changed so that a proof
+    # obligation over the regenerated tables no longer checks, that is for the property's own check to
+    # report (with the failing theorem and a failing input), not a reason for the setup to fail
+    ok, out = vcommon.lake_build(["OvniModel"])
+    if not ok:
+        print(out[-3000:])
+        print("setup: some theorem modules do not build on this tree; the checks will report them")
     print("setup ok:", b)
 
 
